@@ -832,7 +832,7 @@ fn k_exd_read_row_subrows() {
 }
 
 
-//@unit props=C05 label=S tier=quick fn=exd::EXD::read_row bound="page with 2 index entries in any id order (ids symbolic, distinct); the wanted row is listed second; 1 column (UInt8 at 0); 16 data bytes symbolic" stubs=fmt::format
+//@unit props=C05 label=S tier=thorough fn=exd::EXD::read_row bound="page with 2 index entries in any id order (ids symbolic, distinct); the wanted row is listed second; 1 column (UInt8 at 0); 16 data bytes symbolic" stubs=fmt::format
 //@desc a stored row is found wherever it is listed in the page index, whatever ids precede it (the index need not be sorted)
 #[kani::proof]
 #[kani::unwind(18)]
@@ -842,6 +842,33 @@ fn k_exd_read_row_second_entry() {
     arr[8] = 0; arr[9] = 1;   // row header at 4: row_count = 1
     let ids: [u32; 2] = kani::any();
     kani::assume(ids[0] != ids[1]);
+    let exd = mk_exd(arr.to_vec(), vec![ExcelDataOffset { row_id: ids[0], offset: 10 }, ExcelDataOffset { row_id: ids[1], offset: 4 }]);
+    let exh = mk_exh(4, vec![ExcelColumnDefinition { data_type: ColumnDataType::UInt8, offset: 0 }]);
+    match exd.read_row(&exh, ids[1]) {
+        Some(rows) => {
+            assert!(rows.len() == 1, "one record");
+            match &rows[0].data[0] { ColumnData::UInt8(a) => assert!(*a == arr[10], "cell of the second listed row, read at its own offset + 6"), _ => assert!(false, "cell type") }
+            core::mem::forget(rows);
+        }
+        None => assert!(false, "a stored row id yields its row wherever it is listed"),
+    }
+    kani::cover!(ids[0] > ids[1], "reachable");
+    core::mem::forget(exd); core::mem::forget(exh);
+}
+
+
+//@unit props=C05 label=S tier=quick fn=exd::EXD::read_row bound="page with 2 index entries listed in descending id order (first id symbolic and larger than the wanted id 5); the wanted row is listed second; 1 column (UInt8 at 0); the cell byte symbolic" stubs=fmt::format
+//@desc a stored row is found wherever it is listed in the page index, whatever ids precede it (the index need not be sorted)
+#[kani::proof]
+#[kani::unwind(18)]
+#[kani::stub(alloc::fmt::format, stub_fmt)]
+fn k_exd_read_row_second_entry_quick() {
+    let mut arr = [0u8; 16];
+    arr[10] = kani::any();
+    arr[8] = 0; arr[9] = 1;   // row header at 4: row_count = 1
+    let first: u32 = kani::any();
+    kani::assume(first > 5);
+    let ids: [u32; 2] = [first, 5];
     let exd = mk_exd(arr.to_vec(), vec![ExcelDataOffset { row_id: ids[0], offset: 10 }, ExcelDataOffset { row_id: ids[1], offset: 4 }]);
     let exh = mk_exh(4, vec![ExcelColumnDefinition { data_type: ColumnDataType::UInt8, offset: 0 }]);
     match exd.read_row(&exh, ids[1]) {
